@@ -80,6 +80,9 @@ IsPrefix(s, t) == Len(s) <= Len(t) /\ \A j \in 1..Len(s) : s[j] = t[j]
 V_C04(log, end, exp) ==
   LET d == Delivered(log) IN
   IF end = "refused" THEN VTriv("backend-refused-the-pipeline")
+  \* an exception nobody injected (e.g. the library tripping over an example)
+  \* means the examples of the sequential pipeline are not delivered
+  ELSE IF end = "raised_other" THEN VViol("iteration-raises-an-exception-nobody-injected")
   ELSE IF ~IsPrefix(d, exp.items) THEN VViol("delivered-not-a-prefix-of-sequential")
   ELSE IF end = "returned" /\ exp.out = "returned" /\ d # exp.items
        THEN VViol("returned-before-all-examples-were-delivered")
@@ -125,6 +128,7 @@ V_C05(log, end, deadlock, alive, cancellableStarted) ==
 V_C06(log, end, exp, srcForeground) ==
   LET d == Delivered(log) IN
   IF end = "refused" THEN VTriv("backend-refused-the-pipeline")
+  ELSE IF end = "deadlock" /\ exp.out # "returned" THEN VViol("hung-instead-of-raising-the-failure")
   ELSE IF end \in {"closed", "thrown", "deadlock", "diverged"} THEN VTriv("consumer-stopped-first")
   ELSE IF exp.out = "returned" THEN
     \* nothing may propagate: every failure (if any) is of a caught type and
